@@ -4,14 +4,15 @@
 
    Proved here for ALL programs: the spec interpreter is a function and is monotone in its fuel (a
    `Behaviour` never changes when fuel is added, so "well-defined" does not depend on the fuel chosen above
-   the one that suffices).  For the constant / global-variable / + / - fragment of expressions (right operands
-   that xcmp does not spill) the code xcmp generates computes the spec's value on Isa (XCodegenExpr.v,
-   C01_expr_fragment_partial).
-   NOT proved: the full statement C01_full for the real compiler (needs the complete code-generator model,
-   DESIGN.md C01 Layer C).  Outside the fragment the property is decided per explored program by the extracted
-   specs on the real compiler's binary (tools/c01.py): translation validation. *)
+   the one that suffices).
+   Proved for the FRAGMENT (expressions, statements, procedure and function calls: (4)..(4e)) and end to end for
+   whole programs of the fragment (C01_program_partial): C01_full for the compile function `model_compile`, the
+   executable model of xcmp's code generator with the assembler model, which tools/c01.py ties to the real xcmp
+   (per procedure against `xcmp -S`, per program against the bytes of the binary).
+   NOT proved: C01_full for the real compiler on all programs.  Outside the fragment the property is decided per
+   explored program by the extracted specs on the real compiler's binary (tools/c01.py): translation validation. *)
 From Coq Require Import ZArith List String Lia.
-From HexVerif Require Import WMap Isa XAst XSem XSemProps XCodegenIsa XCodegenInv XCodegenExpr XCodegenStmt AsmSpec AsmSpecProofs XCodegenBridge XCodegenCall XCodegenImage XCodegenDemo.
+From HexVerif Require Import WMap Isa XAst XSem XSemProps XCodegenIsa XCodegenInv XCodegenExpr XCodegenStmt AsmSpec AsmSpecProofs XCodegenBridge XCodegenCall XCodegenImage XCodegenProgram XCodegenDemo.
 Import ListNotations.
 Local Open Scope Z_scope.
 
@@ -35,7 +36,24 @@ Definition isa_shows (img : list Z) (inp : list Z) (n : nat) (b : behaviour) : P
   | _ => False
   end.
 
-(* The full property, for a compile function: every well-defined program's image shows the spec's behaviour. *)
+(* The full property, for a compile function: every well-defined program's image shows the spec's behaviour.
+   C01_full (real xcmp) is NOT proved.  What is proved is C01_program_partial below: C01_full for the compile
+   function `model_compile frames false`, which adds these hypotheses to the full statement:
+     - compile is the MODEL (XCodegenProgram.model_compile), not the C++ program; its input is the program as the
+       code generator reads it (the output of XConstProp.front; that front preserves XSem's behaviour is C07's
+       subject and is not proved for whole programs);
+     - the frame numbers (size, usable slots, outgoing words per procedure) are a parameter `frames` (xcmp computes
+       them itself; tools/c01.py reads them off its listing): the theorem holds for every choice that passes the
+       validation;
+     - the program is in the FRAGMENT -- global val/var declarations only (no arrays); procedures and functions with
+       value formals and var locals that hide no global; the statements and expressions of (4)..(4d); constants that
+       fit an immediate operand (no constant pool) -- otherwise model_compile returns None;
+     - model_compile's built-in VALIDATION succeeded (it returns None otherwise): the ISA's decoder reads the stub
+       and every procedure's code at the layout's label positions, the loaded words hold those bytes, the stack
+       pointer word and data words are in place, frame numbers are consistent, and the stack has room for XSem's
+       depth bound (image words + 2000 * largest frame <= 199997);
+     - the code is the LOWERED code, before the three peephole rewrites (opt = false); xcmp's binary has them applied
+       (opt = true reproduces its bytes: see the ties). *)
 Definition C01_full (compile : program -> option (list Z)) : Prop :=
   forall p inp b img,
     XSem.run p inp = Behaviour b -> compile p = Some img -> exists n, isa_shows img inp n b.
@@ -219,11 +237,11 @@ Print Assumptions C01_stmt_calls_partial.
    hypotheses hold is checked per program by tools/c08.py's monitor, not proved). *)
 Theorem C01_calls_partial :
   forall (ge : genv) (gaddr : string -> option Z) (pool : Z -> option Z) (P : Z -> Prop) (m0 : WMap.t)
-         (lab : label -> Z) (pinfo : string -> option pframe) (lay : string -> option playout) (stack_lo maxframe : Z),
+         (lab : label -> Z) (pinfo : string -> option pframe) (stack_lo maxframe : Z),
     (forall p pi, pinfo p = Some pi ->
        0 <= lab (pf_entry pi) /\
        exists pr fn ln L bc n' endp,
-         find_proc p (g_procs ge) = Some pr /\ pf_isfunc pi = is_func pr /\ lay p = Some L /\ simple_proc gaddr pr fn ln /\
+         find_proc p (g_procs ge) = Some pr /\ pf_isfunc pi = is_func pr /\ simple_proc gaddr pr fn ln /\
          numbers_ok maxframe pr L /\
          cs pinfo (frame_venv gaddr pr (pl_size L)) pool (pl_size L) (pl_nslots L) (first_temp pr) (pl_og L) (pl_exit L)
             (body pr) (pl_n0 L) = Some (bc, n') /\
@@ -243,11 +261,11 @@ Print Assumptions C01_calls_partial.
 
 Theorem C01_call_ok_partial :
   forall (ge : genv) (gaddr : string -> option Z) (pool : Z -> option Z) (P : Z -> Prop) (m0 : WMap.t)
-         (lab : label -> Z) (pinfo : string -> option pframe) (lay : string -> option playout) (stack_lo maxframe : Z),
+         (lab : label -> Z) (pinfo : string -> option pframe) (stack_lo maxframe : Z),
     (forall p pi, pinfo p = Some pi ->
        0 <= lab (pf_entry pi) /\
        exists pr fn ln L bc n' endp,
-         find_proc p (g_procs ge) = Some pr /\ pf_isfunc pi = is_func pr /\ lay p = Some L /\ simple_proc gaddr pr fn ln /\
+         find_proc p (g_procs ge) = Some pr /\ pf_isfunc pi = is_func pr /\ simple_proc gaddr pr fn ln /\
          numbers_ok maxframe pr L /\
          cs pinfo (frame_venv gaddr pr (pl_size L)) pool (pl_size L) (pl_nslots L) (first_temp pr) (pl_og L) (pl_exit L)
             (body pr) (pl_n0 L) = Some (bc, n') /\
@@ -300,8 +318,8 @@ Print Assumptions C01_cproc_lowered_shape.
    demo_cproc_cd / _main / _fd (XCodegenDemo.v): what the executable model (with its peephole pass) generates for
    the three; tools/c01.py (coq_demo_listing_tie) re-checks these instruction lists, as written in coq/XCodegenDemo.v,
    against `xcmp -S` of the real compiler on every run (identical up to label names). *)
-Theorem C01_calls_of_hyps : forall ge gaddr pool P m0 lab pinfo lay stack_lo maxframe,
-  prog_hyps ge gaddr pool P m0 lab pinfo lay stack_lo maxframe ->
+Theorem C01_calls_of_hyps : forall ge gaddr pool P m0 lab pinfo stack_lo maxframe,
+  prog_hyps ge gaddr pool P m0 lab pinfo stack_lo maxframe ->
   forall f pr fn ln L sp, frame_ok gaddr stack_lo maxframe pr fn ln L sp ->
     stmt_ok pinfo (Fr_of stack_lo sp) (Dq_of ge stack_lo maxframe sp) (frame_venv gaddr pr (pl_size L)) pool
             (pl_size L) (pl_nslots L) (first_temp pr) (pl_og L) (pl_exit L) ge P m0 lab sp f.
@@ -309,7 +327,7 @@ Proof. exact stmt_calls_of_hyps. Qed.
 Print Assumptions C01_calls_of_hyps.
 
 Theorem C01_calls_nonvacuous_hyps :
-  prog_hyps demo_ge demo_gaddr demo_pool demo_P demo_m0 demo_lab demo_pinfo demo_lay demo_stack_lo demo_maxframe.
+  prog_hyps demo_ge demo_gaddr demo_pool demo_P demo_m0 demo_lab demo_pinfo demo_stack_lo demo_maxframe.
 Proof. exact demo_hyps. Qed.
 Print Assumptions C01_calls_nonvacuous_hyps.
 
@@ -330,6 +348,36 @@ Proof. exact demo_assembled. Qed.
 Example C01_demo_image_runs : isa_shows (words_of_bytes demo_bytes) [] 600
   {| outputs := [(0, 51); (0, 50); (0, 49); (0, 48)]; consumed := 0; exit_value := 0 |}.
 Proof. vm_compute. repeat split. Qed.
+
+(* (4f) PARTIAL, the end-to-end statement: C01_full for the model compile function, for every choice of frame
+   numbers.  model_compile frames false p (XCodegenProgram.v) lays p out as xcmp does -- BR _start; DATA 199997;
+   one DATA 0 per global variable and per local variable; _start: LDAP _exit; BR main; _exit: LDBM 1; LDAC 0;
+   STAI 2; SVC; each procedure's prologue ++ cs body ++ exit label ++ epilogue at its entry label -- through the
+   assembler model AsmLayout.assemble_directives, validates the result by computation and returns its words.
+   Claim: if XSem.run p inp = Behaviour b (fuel 10^6, 2*10^6 statements, depth 2000) and model_compile returns an
+   image, then the ISA started on that image (Isa.boot: words at address 0, registers clear, pc = 0) performs,
+   within some number of instructions, exactly the outputs of b in order, consumes as many console bytes as b says
+   (none: `get` is outside the fragment) and exits with b's exit value.
+   Proof: reset, BR _start, the stub's LDAP _exit; BR main (one instruction each, from the validated decoder
+   facts); main called from a two-word root frame at 199997 by C01_call_ok_partial, whose hypotheses are derived
+   from the validation (the_hyps); the exit stub, or the program's own exit.
+   See the comment at C01_full for exactly what this adds to the full statement.
+   C01_program_nonvacuous: the theorem applied to the demo program of (4e) -- its validated image demo_image
+   (35 words) shows the spec's behaviour "3210", exit 0.  C01_demo_model_image: model_compile returns that image.
+   demo_model_image_opt (XCodegenDemo.v): with opt = true it returns 34 words, which tools/c01.py re-checks against
+   the binary the real xcmp writes for the same source (coq_demo_image_tie), and does the same for generated
+   fragment programs (program_model_tie: byte-identical images counted in the evidence). *)
+Theorem C01_program_partial : forall frames : string -> option (Z * Z * Z), C01_full (model_compile frames false).
+Proof. exact program_correct. Qed.
+Print Assumptions C01_program_partial.
+
+Theorem C01_program_nonvacuous : exists n,
+  isa_shows demo_image [] n {| outputs := [(0, 51); (0, 50); (0, 49); (0, 48)]; consumed := 0; exit_value := 0 |}.
+Proof. exact demo_end_to_end. Qed.
+Print Assumptions C01_program_nonvacuous.
+
+Example C01_demo_model_image : model_compile demo_frames false demo = Some demo_image.
+Proof. exact demo_model_image. Qed.
 
 (* (5) the hypothesis code_at of (4) is what the assembler side delivers: where the ISA's own decoder reads
    instruction i (for a branch: with its label's position relative to the next instruction as operand) in an image
